@@ -558,7 +558,7 @@ def same_tokens(a, b):
 
 # --------------------------------------------------------------------------- rewrite rules
 
-def apply_rules(text, rules, ed, base=0):
+def apply_rules(text, rules, ed, base=0, regex_map=None):
     """Apply the closed list of rewrite rules (DESIGN.md 2.1 item 2) to `text`;
     edits are recorded in `ed` at offset `base`."""
     toks = lex(text)
@@ -580,6 +580,80 @@ def apply_rules(text, rules, ed, base=0):
                 and st[i + 1].text == "_":
             ed.replace(base + st[i + 1].start, base + st[i + 1].end, "R2", "_e")
             i += 2
+        elif "R6" in rules and is_id(t, "if") and i > 0:
+            # match arm `P1 | P2 if G => E,`  ->  `P1 if G => E, P2 if G => E,` (Verus rejects or-pattern + guard)
+            b = i - 1
+            depth = 0
+            bars = []
+            ok = True
+            while b >= 0:
+                tb = st[b]
+                if tb.kind == "punct" and tb.text in CLOSE:
+                    depth += 1
+                elif tb.kind == "punct" and tb.text in OPEN:
+                    if depth == 0:
+                        break
+                    depth -= 1
+                elif depth == 0 and (is_p(tb, ",") or is_p(tb, ";")):
+                    break
+                elif depth == 0 and is_p(tb, "|"):
+                    bars.append(b)
+                elif depth == 0 and is_p(tb, ">") and b > 0 and is_p(st[b - 1], "="):
+                    ok = False
+                    break
+                b -= 1
+            pat_start = b + 1
+            # forward: guard up to `=>`, then the arm expression
+            f = i + 1
+            arrow = None
+            while f < n:
+                tf = st[f]
+                if tf.kind == "punct" and tf.text in OPEN:
+                    if is_p(tf, "{"):
+                        break
+                    f = match_close(st, f) + 1
+                    continue
+                if is_p(tf, "=") and f + 1 < n and is_p(st[f + 1], ">"):
+                    arrow = f
+                    break
+                if is_p(tf, ";"):
+                    break
+                f += 1
+            if ok and bars and arrow is not None and b >= 0 and (is_p(st[b], "{") or is_p(st[b], ",")):
+                e0 = arrow + 2
+                if is_p(st[e0], "{"):
+                    e1 = match_close(st, e0)
+                else:
+                    e1 = e0
+                    while True:
+                        te = st[e1]
+                        if te.kind == "punct" and te.text in OPEN:
+                            e1 = match_close(st, e1) + 1
+                            continue
+                        if is_p(te, ",") or (te.kind == "punct" and te.text in CLOSE):
+                            break
+                        e1 += 1
+                    e1 -= 1
+                bars.sort()
+                alts = []
+                lo = pat_start
+                for bb in bars:
+                    alts.append(text[st[lo].start:st[bb - 1].end])
+                    lo = bb + 1
+                alts.append(text[st[lo].start:st[i - 1].end])
+                guard = text[st[i].start:st[arrow - 1].end]
+                expr = text[st[e0].start:st[e1].end]
+                new = ", ".join("%s %s => %s" % (a, guard, expr) for a in alts)
+                ed.replace(base + st[pat_start].start, base + st[e1].end, "R6", new)
+                i = e1
+        elif "R7" in rules and is_id(t, "regex") and i + 4 < n and is_p(st[i + 1], "!") and is_p(st[i + 2], "(") \
+                and st[i + 3].kind == "str" and is_p(st[i + 4], ")"):
+            # `regex!(LIT)` -> the stand-in matcher the sidecar names for exactly this literal
+            lit = st[i + 3].text
+            if not regex_map or lit not in regex_map:
+                raise LexError("regex literal %s has no stand-in matcher (the literal changed?)" % lit)
+            ed.replace(base + t.start, base + st[i + 4].end, "R7", regex_map[lit])
+            i += 4
         elif "R5" in rules and is_id(t, "format") and i + 2 < n and is_p(st[i + 1], "!") and is_p(st[i + 2], "("):
             e = match_close(st, i + 2)
             ed.replace(base + t.start, base + st[e].end, "R5", "verif_fmt()")
